@@ -106,12 +106,16 @@ static void run_balance(Ctx& ctx, uint64_t m) {
 // buffers that live inside a transform table (new_*_precomp(m, num_buffers) + *_precomp_get_buffer): each one must be a
 // usable, 2m-double region inside the table's allocation, disjoint from the twiddles and from the other buffers
 static void run_precomp_buffers(Ctx& ctx, uint64_t m) {
-  for (int which = 0; which < 4; ++which) for (uint32_t nb : {1u, 2u, 3u}) {
+  // malloc promises 16-byte alignment only: the table is built on blocks starting at 0, 16, 32 and 48 modulo 64 (the wrapped allocator
+  // decides it; the end of the block stays the end of the underlying allocation, so an overrun is still seen by the sanitizer)
+  for (int which = 0; which < 4; ++which) for (uint32_t nb : {1u, 2u, 3u}) for (int res64 : {0, 16, 32, 48}) {
     static const char* nm[] = {"reim_fft", "reim_ifft", "cplx_fft", "cplx_ifft"};
-    std::string id = sfmt("precomp-buffers|new_%s_precomp|m=%llu|num_buffers=%u", nm[which], (unsigned long long)m, nb);
+    std::string id = sfmt("precomp-buffers|new_%s_precomp|m=%llu|num_buffers=%u|malloc at %d mod 64", nm[which], (unsigned long long)m, nb, res64);
     if (!ctx.want(id)) continue;
     ctx.begin_case(id);
+    alloc_track().residue = res64;
     void* pc = which == 0 ? (void*)new_reim_fft_precomp(m, nb) : which == 1 ? (void*)new_reim_ifft_precomp(m, nb) : which == 2 ? (void*)new_cplx_fft_precomp(m, nb) : (void*)new_cplx_ifft_precomp(m, nb);
+    alloc_track().residue = -1;
     auto buf = [&](uint32_t i) -> double* {
       switch (which) { case 0: return reim_fft_precomp_get_buffer((REIM_FFT_PRECOMP*)pc, i); case 1: return reim_ifft_precomp_get_buffer((REIM_IFFT_PRECOMP*)pc, i);
                        case 2: return (double*)cplx_fft_precomp_get_buffer((CPLX_FFT_PRECOMP*)pc, i); default: return (double*)cplx_ifft_precomp_get_buffer((CPLX_IFFT_PRECOMP*)pc, i); } };
